@@ -244,6 +244,9 @@ fn fwd_kind(name: &str, args: &[String], body: &str) -> String {
         ("iter", "{self.as_ref().into_iter()}") => ".asRefIntoIter".into(),
         ("apply_index", "{self.__private_apply_permutation(&mut::soa_derive::Permutation::oneline(indices).inverse());}") => ".applyInversePermutation".into(),
         ("apply_index", "{use::soa_derive::SoASliceMut;self.as_mut_slice().apply_index(indices);}") => ".viaMutSlice".into(),
+        // validated form: length and permutation checked before the inverse permutation is applied to every field
+        ("apply_index", b) if b.starts_with("{assert_eq!(indices.len(),self.len(),") && b.contains("letpermutation=::soa_derive::Permutation::oneline(indices);assert!(permutation.valid(),")
+            && b.ends_with("self.__private_apply_permutation(&mutpermutation.inverse());}") => ".applyInversePermutation".into(),
         _ => ".unknown".into(),
     }
 }
